@@ -18,7 +18,7 @@ pub fn info() -> PropInfo {
         id: "C06",
         run,
         replay,
-        rule: "cases = (value of one of 20 derive(Serialize, Deserialize) types covering the mapping table: attributes, child elements, $text, optional fields skipped when None, element lists, xs:list in attribute and text, unit/newtype/struct enum variants in $value, mixed $value lists of element and text choices, nested structs, maps with name-like keys, tuples, newtypes, units, top-level enums, numeric extremes, recursive trees; serializer options: 3 quote levels x indent none/space/tab width 0-4 x expand-empty x root renamed or not). Oracle: serialization returns Ok and from_str of the output equals the value. Non-trivial = a string payload contains a character that some quote level escapes, or the value holds a non-empty list/enum/optional. Strings of 16..300 characters, lists of 20..200 items, chains nested 20..60 deep and a list of structs with struct-typed fields (Rows) occur among the values. One type has a `$value` list whose text choice is a TUPLE variant (`#[serde(rename = \"$text\")] T(u16, i8)`, written and read as an xs:list).",
+        rule: "cases = (value of one of 20 derive(Serialize, Deserialize) types covering the mapping table: attributes, child elements, $text, optional fields skipped when None, element lists, xs:list in attribute and text, unit/newtype/struct enum variants in $value, mixed $value lists of element and text choices, nested structs, maps with name-like keys, tuples, newtypes, units, top-level enums, numeric extremes, recursive trees; serializer options: 3 quote levels x indent none/space/tab width 0-4 x expand-empty x root renamed or not). Oracle: serialization returns Ok and from_str of the output equals the value. Non-trivial = a string payload contains a character that some quote level escapes, or the value holds a non-empty list/enum/optional. Strings of 16..300 characters, lists of 20..200 items, chains nested 20..60 deep and a list of structs with struct-typed fields (Rows) occur among the values. One type has a `$value` list whose text choice is a TUPLE variant (`#[serde(rename = \"$text\")] T(u16, i8)`, written and read as an xs:list). Cases without indentation are also serialized through one of the convenience entry points (to_string / to_string_with_root / to_writer / to_writer_with_root / to_utf8_io_writer, their own default options) and round-tripped.",
         assumptions: &[
             "element/text strings and chars have no leading/trailing XML whitespace (documented trimming); attribute strings are unrestricted",
             "xs:list items are non-empty and free of XML whitespace; mixed lists never hold two adjacent text items or an empty text item (documented)",
@@ -43,6 +43,21 @@ pub fn check(c: &Case) -> Verdict {
     }
     let mut v = Verdict::pass(has_special_payload(&c.value) || xml.matches('<').count() > 4);
     v.classes.push(c.value.ty().name());
+    // the convenience entry points (their own default options): same round trip
+    if c.opts.indent.is_none() {
+        let entry = (xml.len() % 3) as u8;
+        let what = ["to_string[_with_root]", "to_writer[_with_root]", "to_utf8_io_writer"][if entry == 2 && c.opts.root.is_some() { 0 } else { entry as usize }];
+        let xml2 = match c.value.serialize_entry(entry, c.opts.root.as_deref()) {
+            Ok(x) => x,
+            Err(e) => return Verdict::fail(format!("{} failed: {} | value {:?}", what, e, c.value)),
+        };
+        match c.value.ty().from_str(&xml2) {
+            Ok(b) if b == c.value => {}
+            Ok(b) => return Verdict::fail(format!("round trip through {} changed the value | xml {:?} | original {:?} | read back {:?}", what, xml2, c.value, b)),
+            Err(e) => return Verdict::fail(format!("deserialization of the output of {} failed: {} | xml {:?} | value {:?}", what, e, xml2, c.value)),
+        }
+        v.classes.push(what);
+    }
     if c.opts.indent.is_some() {
         v.classes.push("indented");
     }
